@@ -157,6 +157,14 @@ type replayOut struct {
 }
 
 // buildWorker rewrites the current /repo tree and builds the worker binary.
+// headTail keeps the beginning (the reason) and the end of a dead worker's stderr.
+func headTail(b []byte, h, t int) string {
+	if len(b) <= h+t {
+		return string(b)
+	}
+	return string(b[:h]) + "\n...\n" + string(b[len(b)-t:])
+}
+
 func buildWorker(scratch, variant string) (string, *rewrite.Stats) {
 	ov, st, err := rewrite.Run(rewrite.Options{Repo: repoDir(), Out: scratch, GoBin: goBin(), Variant: variant, Env: goEnv()})
 	if err != nil {
@@ -171,6 +179,14 @@ func buildWorker(scratch, variant string) (string, *rewrite.Stats) {
 		fatal2("building the worker from /repo's working tree failed (exit 2, not a verdict): %v\n%s", err, out)
 	}
 	return bin, st
+}
+
+// workerProcs is the GOMAXPROCS of search workers (VERIF_WORKER_PROCS overrides).
+func workerProcs() string {
+	if v := os.Getenv("VERIF_WORKER_PROCS"); v != "" {
+		return v
+	}
+	return "2"
 }
 
 func runWorker(bin string, memMB int, env []string, args ...string) ([]byte, []byte, error) {
@@ -313,7 +329,10 @@ func cmdCheck(args []string) {
 				if cfg.MemLimitMB > 0 {
 					args = append(args, "-progress", progFile)
 				}
-				_, se, err := runWorker(bin, cfg.MemLimitMB, nil, args...)
+				// the simulation runs one task at a time: a small GOMAXPROCS keeps 16 workers
+				// from needing hundreds of OS threads on a loaded machine (the determinism
+				// sample above has shown the hashes do not depend on it)
+				_, se, err := runWorker(bin, cfg.MemLimitMB, []string{"GOMAXPROCS=" + workerProcs()}, args...)
 				var s summary
 				if b, rerr := os.ReadFile(outFile); rerr == nil {
 					if jerr := json.Unmarshal(b, &s); jerr != nil && err == nil {
@@ -329,7 +348,7 @@ func cmdCheck(args []string) {
 					break
 				}
 				// the worker died
-				if transientDeath(se) && transient < 3 && s.NextIdx >= 0 {
+				if (transientDeath(se) || cfg.MemLimitMB == 0 && bytes.Contains(se, []byte("out of memory"))) && transient < 6 && s.NextIdx >= 0 {
 					// the machine ran out of threads, processes or memory for a moment:
 					// resume after the last flushed summary (nothing is counted twice)
 					transient++
@@ -337,20 +356,20 @@ func cmdCheck(args []string) {
 					if s.NextIdx > startIdx {
 						startIdx = s.NextIdx
 					}
-					time.Sleep(2 * time.Second)
+					time.Sleep(time.Duration(2<<transient) * time.Second)
 					if time.Until(deadline) < time.Second {
 						break
 					}
 					continue
 				}
 				if cfg.MemLimitMB == 0 || attempt > 2000 {
-					crashes[k] = fmt.Sprintf("worker %d: %v\n%s", k, err, tail(se, 6000))
+					crashes[k] = fmt.Sprintf("worker %d: %v\n%s", k, err, headTail(se, 3000, 5000))
 					return
 				}
 				pb, perr := os.ReadFile(progFile)
 				died, aerr := strconv.Atoi(strings.TrimSpace(string(pb)))
 				if perr != nil || aerr != nil || !bytes.Contains(se, []byte("out of memory")) && !bytes.Contains(se, []byte("cannot allocate")) {
-					crashes[k] = fmt.Sprintf("worker %d died for a reason other than the address-space limit: %v\n%s", k, err, tail(se, 6000))
+					crashes[k] = fmt.Sprintf("worker %d died for a reason other than the address-space limit: %v\n%s", k, err, headTail(se, 3000, 5000))
 					return
 				}
 				acc.Reach["harness.worker-killed-by-memory-limit(trial counted as aborted session)"]++
